@@ -1,8 +1,34 @@
-(* C06 — A trigger starts exactly one transfer; look-alikes and replays start none. *)
+(* C06 — A trigger starts exactly one transfer; look-alikes and replays start none.
+   This file contains only the property theorems; each is closed by a lemma of
+   Proofs/Detector.v and followed by Print Assumptions. *)
 From Coq Require Import String.
 From Trzsz Require Import Base.Bytes Gen.Consts Model.Detector Proofs.Detector.
+Local Open Scope N_scope.
 
+(* the three regex sources, whose meaning the model's matchers hard-code, are what the
+   code says today (regenerated from comm.go on every run) *)
 Theorem C06_regex_sources_pinned :
-  Consts.det_trzsz_regex_src = marker ++ bs "([SRD]):(\d+\.\d+\.\d+)(:\d+)?(:\d+)?"%string.
-Proof. exact trzsz_regex_src_ok. Qed.
+  Consts.det_trzsz_regex_src = marker ++ bs "([SRD]):(\d+\.\d+\.\d+)(:\d+)?(:\d+)?" /\
+  Consts.det_uid_regex_src = marker ++ bs "[SRD]:\d+\.\d+\.\d+:(\d{13}\d*)" /\
+  Consts.det_tmux_regex_src = bs "((%output %\d+ )|(%extended-output %\d+ \d+ : )).*" ++ marker.
+Proof. exact (conj trzsz_regex_src_ok (conj uid_regex_src_ok tmux_regex_src_ok)). Qed.
 Print Assumptions C06_regex_sources_pinned.
+
+(* no trigger => the detector state is untouched and the bytes pass unchanged: in client
+   mode and plain relay mode literally, in relay+tmux mode after the id re-tagging (what
+   TestRelayDetector pins), for every buffer, flag combination and id table *)
+Theorem C06_silent : forall winenv d tunnel buf out d',
+  detect winenv d tunnel buf = (out, None, d') ->
+  d' = d /\ out = if d_relay d && d_tmux d then rewrite_trigger buf else buf.
+Proof. exact silent. Qed.
+Print Assumptions C06_silent.
+
+(* whenever a client-mode detector fires, what it shows locally contains no trigger
+   marker any more, so NO detector further along the path (client or relay, any flags,
+   any id table) reacts to it, and it passes through them unchanged *)
+Theorem C06_client_rewrite_inert : forall winenv d tunnel buf out t d', d_relay d = false ->
+  detect winenv d tunnel buf = (out, Some t, d') ->
+  last_index_of marker out = None /\
+  forall winenv2 d2 tunnel2, detect winenv2 d2 tunnel2 out = (out, None, d2).
+Proof. exact client_rewrite_inert. Qed.
+Print Assumptions C06_client_rewrite_inert.
